@@ -2246,8 +2246,8 @@ theorem eval_badCustomFilter (o : BuildOpts) (cps : List Policy) (prov : Str) (r
   simp only [List.any_map, Function.comp_def]
   rw [providerRules_any o cps prov req hnd]
 
-theorem eval_customFilters (o : BuildOpts) (cps : List Policy) (prov : Str) (req : Request) :
-    evalGs (customFilters o cps prov) req = true := by
+theorem eval_customFilters (o : BuildOpts) (cps : List Policy) (prov : Str) (t : ExtTarget) (req : Request) :
+    evalGs (customFilters o cps prov t) req = true := by
   simp [customFilters, evalGs, evalG, evalFilter]
 
 theorem not_any_eq_all_not {α : Type} (l : List α) (f : α → Bool) : (!l.any f) = l.all (fun x => !f x) := by
@@ -2327,13 +2327,13 @@ theorem custom_correct_compiled (o : BuildOpts) (c : CustomOpts) (ps : List Poli
       unfold evalGs
       rw [List.all_flatMap]
       have hper : ∀ pr, (if c.providers.contains pr = true then
-              (if (o.shapeTCP && c.httpProviders.contains pr) = true then [] else customFilters o cps pr)
+              (if (o.shapeTCP && c.httpProviders.contains pr) = true then [] else customFilters o cps pr (c.targetOf pr))
             else [GFilter.rbac (badCustomFilter o cps pr)]).all (evalG · req) =
           !(!c.providers.contains pr &&
             (cps.filter fun p => p.provider == pr && !p.dryRun).any (compiledPolicyMatch o false req)) := by
         intro pr
         by_cases hk : c.providers.contains pr = true
-        · have := eval_customFilters o cps pr req
+        · have := eval_customFilters o cps pr (c.targetOf pr) req
           simp only [evalGs] at this
           rw [if_pos hk, hk]
           split
